@@ -428,7 +428,7 @@ func c16EntryLoop(c *Ctx) {
 	// the loop whose body contains the advance
 	advSites := u.Match(adv)
 	var loop *ast.ForStmt
-	ast.Inspect(u.Body, func(n ast.Node) bool {
+	u.InspectAll(func(n ast.Node) bool {
 		if f, ok := n.(*ast.ForStmt); ok && f.Body.Pos() <= advSites[0].Pos && advSites[0].Pos < f.Body.End() {
 			loop = f
 		}
